@@ -382,7 +382,7 @@ theorem C12_file_same (f s : Str) :
 def colNum (rows : List (List XR)) (j : Nat) : List XR := rows.map fun r => nanToNum (r.getD j .nan)
 
 theorem nanToNum_zero_add (x : XR) : (XR.fin 0 + nanToNum x : XR) = nanToNum x := by
-  cases x <;> simp [nanToNum]
+  cases x <;> first | rfl | simp [nanToNum]
 
 theorem addRows_getD (s r : List XR) (j : Nat) (hs : j < s.length) (hr : j < r.length) :
     (addRows s (r.map nanToNum)).getD j .nan = s.getD j .nan + nanToNum (r.getD j .nan) := by
@@ -412,7 +412,7 @@ theorem accFrom_get (n : Nat) (rows : List (List XR)) (hrect : ∀ r ∈ rows, r
       rw [ih (fun x hx => hrect x (by simp [hx])) _ hlen i (by simpa using hi)]
       simp only [colNum, List.take_succ_cons, List.map_cons, List.foldl_cons, hget]
 
-/-- `-acc`: entry (i, j) of the accumulated table is the running sum Σ_{k ≤ i} nan_to_num(y[k][j])
+/-- `-acc`: entry (i, j) of the accumulated table is the running sum Σ_{k ≤ i} nanToNum(y[k][j])
 (`Vec.sum` is the left fold from 0). -/
 theorem C12_acc (n : Nat) (rows : List (List XR)) (hrect : ∀ r ∈ rows, r.length = n)
     (i j : Nat) (hi : i < rows.length) (hj : j < n) :
@@ -436,23 +436,10 @@ theorem C12_acc (n : Nat) (rows : List (List XR)) (hrect : ∀ r ∈ rows, r.len
 /-- NaN counts as 0, everything else as itself -/
 def nan0 (x : XR) : XR := if x.isNan then .fin 0 else x
 
-/- FULL statement of the property ("-acc reports running sums along the axis", a missing score counting
-   as 0), which does NOT hold when a score is infinite — known finding acc-inf:
-     theorem C12_acc_full … : ((acc rows)[i]?.bind (·[j]?)) =
-         some (Vec.sum ((rows.take (i + 1)).map fun r => nan0 (r.getD j .nan)))      -- no hypothesis on ±inf
-   `np.nan_to_num` also replaces ±inf by ±DBL_MAX (`C12_acc` above is the exact statement of what the code
-   does).  Below: the property form under the hypothesis the defect forces, and the failing witness. -/
-
-/-- witness of acc-inf: an infinite score is reported as the largest double -/
-example : acc [[.pinf]] = [[.fin dblMax]] ∧ Vec.sum ([.pinf].map nan0) = .pinf := by
-  constructor
-  · rfl
-  · decide +kernel
-
-
-/-- … and when no score is infinite this is "NaN counts as 0": Σ_{k ≤ i} (if y[k][j] = nan then 0 else y[k][j]) -/
-theorem C12_acc_finite (n : Nat) (rows : List (List XR)) (hrect : ∀ r ∈ rows, r.length = n)
-    (hfin : ∀ r ∈ rows, ∀ x ∈ r, x.isInf = false)
+/-- FULL statement of the property: `-acc` reports running sums along the axis, a missing score counting
+as 0 — for every input, infinite scores included (no hypothesis on ±inf): the running sum is infinite from
+an infinite score on (and NaN once +inf and −inf have both occurred, as in IEEE arithmetic). -/
+theorem C12_acc_full (n : Nat) (rows : List (List XR)) (hrect : ∀ r ∈ rows, r.length = n)
     (i j : Nat) (hi : i < rows.length) (hj : j < n) :
     ((acc rows)[i]?.bind (·[j]?)) =
       some (Vec.sum ((rows.take (i + 1)).map fun r => nan0 (r.getD j .nan))) := by
@@ -460,14 +447,13 @@ theorem C12_acc_finite (n : Nat) (rows : List (List XR)) (hrect : ∀ r ∈ rows
   congr 2
   simp only [colNum]
   apply List.map_congr_left
-  intro r hr
-  have hrm : r ∈ rows := List.mem_of_mem_take hr
-  have hl := hrect r hrm
-  have hx : r.getD j .nan ∈ r := by
-    rw [List.getD_eq_getElem?_getD, List.getElem?_eq_getElem (by omega)]
-    simp
-  have := hfin r hrm _ hx
-  cases h : r.getD j .nan <;> simp_all [nanToNum, nan0, XR.isInf, XR.isNan]
+  intro r _
+  cases h : r.getD j .nan <;> simp [nanToNum, nan0, XR.isNan]
+
+/-- the former witness of acc-inf (an infinite score was reported as the largest double): the accumulated
+value is the infinite running sum, and stays infinite in the following rows -/
+example : acc [[.pinf], [.fin 1], [.nan]] = [[.pinf], [.pinf], [.pinf]] ∧ Vec.sum ([.pinf].map nan0) = .pinf := by
+  constructor <;> decide +kernel
 
 /-! ### threshold averaging -/
 
@@ -522,7 +508,7 @@ example : ((splitC '\n' (textChars exText)).drop 2).head? =
     some "12                  | -1234      | inf        | 0.3333              | ".toList := by
   decide +kernel
 
-/-- the hypotheses of `C12_acc_finite` / `C12_threshold_avg` on a concrete matrix, and the values -/
+/-- the hypotheses of `C12_acc_full` / `C12_threshold_avg` on a concrete matrix, and the values -/
 example : acc [[.fin 1, .nan], [.nan, .fin 2], [.fin (1/2), .fin 3]] =
     [[.fin 1, .fin 0], [.fin 1, .fin 2], [.fin (3/2), .fin 5]] := by decide +kernel
 
